@@ -70,8 +70,13 @@ unsigned int get_rex_prefix(struct instr *all_instr, struct operand *m,
   all_instr->hex.is_w0 = true;
   if ((m->reg & MODE_MASK) < reg64)
     all_instr->hex.is_w0 = false;
-  if ((m->reg & MODE_MASK) == mmx64 || (r->reg & MODE_MASK) == mmx64)
-    return get_vector_rex_prefix(all_instr, m->reg, r->reg);
+  if ((m->reg & MODE_MASK) == mmx64 || (r->reg & MODE_MASK) == mmx64) {
+    rex_prefix = get_vector_rex_prefix(all_instr, m->reg, r->reg);
+    // the index register of the memory operand is part of the x64 extended set
+    if (m->index != reg_none && (m->index & REG_RB))
+      rex_prefix |= rex_ | rex_x;
+    return rex_prefix;
+  }
   if (all_instr->keyword.is_keyword)
     overide_opd_size(all_instr, &rm);
   else if (!(rm & reg_none) && !(rm & MODE_MASK) && rm >= spl)
